@@ -5,7 +5,7 @@ import numpy as np
 import impl, gen, oracle, evalutil as E
 from common import close, same_value
 
-RULE = ("label-map pairs with unequal instance counts and different label ranges on the two sides (incl. gaps in the "
+RULE = ("one-sided rejection cases (a label covered by no class group, or a negative semantic value, in one of the two maps only: both directions must be rejected alike); label-map pairs with unequal instance counts and different label ranges on the two sides (incl. gaps in the "
         "label values and label products near dtype boundaries) x input types x one-to-one threshold matching with "
         "IoU/Dice/ASSD; evaluate(pred, ref) vs evaluate(ref, pred); tie cases are only checked for validity; "
         "non-trivial = tp >= 1 and (fp != fn or some RVD != 0)")
@@ -162,9 +162,45 @@ def run_cases(ctx, n, tag):
         one_case(ctx, pred, ref, cfg, f"{tag}{i}")
 
 
+def rejection_cases(ctx, n):
+    """whether a pair is evaluated or rejected must not depend on the direction: a label that no class group covers,
+    or a negative value in a signed semantic map, placed in one of the two maps only"""
+    rng = ctx.rng
+    for i in range(n):
+        pred, ref = gen.pair(rng, ndim=rng.choice([2, 2, 3]), hi=7, max_obj=3, allow_empty=False)
+        labels = sorted((set(np.unique(pred).tolist()) | set(np.unique(ref).tolist())) - {0})
+        kind = rng.choice(["stray-label", "negative"])
+        a, b = pred.copy(), ref.copy()
+        if kind == "stray-label":
+            stray = max(labels) + rng.randint(1, 3)
+            pos = tuple(rng.randrange(n2) for n2 in b.shape)
+            b[pos] = stray
+            a[pos] = 0 if rng.random() < 0.5 else a[pos]
+            groups = [{"name": "all", "labels": labels, "merge": False, "single": False}]
+            cfg = E.mk_cfg(rng.choice(["UNMATCHED", "MATCHED", "SEMANTIC"]), ["IOU", "DSC"], matcher=E.naive("IOU", (1, 2)))
+            if cfg["input"] == "MATCHED":
+                cfg["matcher"] = None
+        else:
+            dt = rng.choice([np.int16, np.int32, np.int64])
+            a, b = a.astype(dt), b.astype(dt)
+            b[tuple(rng.randrange(n2) for n2 in b.shape)] = rng.choice([-1, -1, -3])
+            groups = None
+            cfg = E.mk_cfg("SEMANTIC", ["IOU", "DSC"], matcher=E.naive("IOU", (1, 2)))
+        inp = {"shape": list(a.shape), "dtype": str(a.dtype), "pred": gen.arr_json(a), "ref": gen.arr_json(b), "cfg": cfg, "groups": groups,
+               "kind": kind, "src": f"reject{i}"}
+        ctx.case(inp, True)
+        ctx.count("one_sided_" + kind)
+        fwd = E.run_impl(cfg, a, b, groups=groups)
+        bwd = E.run_impl(cfg, b, a, groups=groups)
+        if isinstance(fwd, str) != isinstance(bwd, str) or (isinstance(fwd, str) and fwd != bwd):
+            ctx.violation(f"a {kind} present in one map only: evaluate(a, b) -> {fwd if isinstance(fwd, str) else 'a result'} but "
+                          f"evaluate(b, a) -> {bwd if isinstance(bwd, str) else 'a result'}", inp, key={"kind": "raises"})
+
+
 def run(ctx):
     corpus(ctx)
     corpus2(ctx)
+    rejection_cases(ctx, ctx.scale(80, 800))
     run_cases(ctx, ctx.scale(500, 5000), "rand")
 
 
@@ -174,5 +210,14 @@ def search(ctx):
 
 def replay(ctx, rec):
     i = rec["input"]
+    if i.get("kind") in ("stray-label", "negative"):
+        dt = np.dtype(i["dtype"])
+        a, b = np.array(i["pred"], dtype=dt).reshape(i["shape"]), np.array(i["ref"], dtype=dt).reshape(i["shape"])
+        fwd, bwd = E.run_impl(i["cfg"], a, b, groups=i["groups"]), E.run_impl(i["cfg"], b, a, groups=i["groups"])
+        ctx.case(i, True)
+        if isinstance(fwd, str) != isinstance(bwd, str) or (isinstance(fwd, str) and fwd != bwd):
+            ctx.violation(f"one direction is rejected, the other evaluated: {fwd if isinstance(fwd, str) else 'a result'} vs {bwd if isinstance(bwd, str) else 'a result'}",
+                          i, key={"kind": "raises"})
+        return
     dt = np.dtype(i.get("dtype", "uint8"))
     one_case(ctx, np.array(i["pred"], dtype=dt).reshape(i["shape"]), np.array(i["ref"], dtype=dt).reshape(i["shape"]), i["cfg"], "replay")
